@@ -1287,6 +1287,11 @@ Proof.
   - split; [reflexivity|]. split; [reflexivity|]. vm_compute. discriminate.
 Qed.
 
+Lemma mem_str_In_ k l : mem_str k l = true <-> In k l.
+Proof. exact (mem_str_In (fun _ _ => true) k l). Qed.
+Lemma mem_str_false_ k l : mem_str k l = false <-> ~ In k l.
+Proof. exact (mem_str_false (fun _ _ => true) k l). Qed.
+
 (* by L  and  without (all keys \ L)  keep the same labels (all series of a metric share the key set) *)
 Theorem by_without_dual name ls fields :
   NoDup (map fst ls) -> fields <> [] ->
@@ -1307,11 +1312,129 @@ Proof.
   - intros k v. unfold by_labels. rewrite in_flat_map, filter_In. split.
     + intros [f [Hf Hin]]. destruct (lookup f ls) as [w|] eqn:El; [|destruct Hin].
       destruct Hin as [E|[]]. injection E as <- <-. split; [apply (lookup_nodup ls Hn); exact El|].
-      cbn [fst]. rewrite negb_true_iff, mem_str_false. unfold rest. rewrite filter_In, negb_true_iff, mem_str_false. Show. tauto.
-    + intros [Hin Hm]. cbn [fst] in Hm. rewrite negb_true_iff, mem_str_false in Hm. unfold rest in Hm.
-      rewrite filter_In, negb_true_iff, mem_str_false in Hm.
+      cbn [fst]. rewrite negb_true_iff, mem_str_false_. unfold rest. rewrite filter_In, negb_true_iff, mem_str_false_. tauto.
+    + intros [Hin Hm]. cbn [fst] in Hm. rewrite negb_true_iff, mem_str_false_ in Hm. unfold rest in Hm.
+      rewrite filter_In, negb_true_iff, mem_str_false_ in Hm.
       assert (Hk : In k (map fst ls)) by (apply in_map_iff; exists (k, v); auto).
       assert (Hf : In k fields).
-      { destruct (mem_str k fields) eqn:E; [apply mem_str_In; exact E|]. apply mem_str_false in E. tauto. }
+      { destruct (mem_str k fields) eqn:E; [apply mem_str_In_; exact E|]. apply mem_str_false_ in E. tauto. }
       exists k. split; [exact Hf|]. rewrite (proj1 (lookup_nodup ls Hn k v) Hin). left. reflexivity.
 Qed.
+
+(* ---------- refutations with concrete witnesses (all confirmed on the real code) ---------- *)
+Open Scope N_scope.
+Definition w_m : str := [109].    (* "m" *)
+Definition w_n : str := [110].    (* "n" *)
+Definition w_a : str := [97].
+Definition w_b : str := [98].
+Definition w_db1 : list series := [ {| s_name := w_m; s_labels := [(w_a, [49])]; s_chunks := [[(10, 60)]%Z] |} ].
+Definition mk (k : str) (op : mop) (v : str) : matcher := {| m_key := k; m_op := op; m_val := v |}.
+
+(* series m{a="1"}; PromQL selects it with b!="2", b="" and b=~".*" (absent label = ""); the engine does not *)
+Theorem select_absent_label_refuted (rmatch : str -> str -> bool) :
+  rmatch [46; 42] [] = true ->
+  exists db s, nth_error db 0 = Some s /\
+    Forall (fun m => spec_selected rmatch w_m [m] s = true /\ tr_mem 0 (tracked rmatch (QSel w_m [m]) db) = false)
+           [mk w_b MNe [50]; mk w_b MEq []; mk w_b MRe [46; 42]].
+Proof.
+  intros Hr. exists w_db1, {| s_name := w_m; s_labels := [(w_a, [49])]; s_chunks := [[(10, 60)]%Z] |}.
+  split; [reflexivity|]. repeat constructor; try reflexivity.
+  unfold spec_selected, spec_match. cbn. rewrite Hr. reflexivity.
+Qed.
+
+(* the guard of the selection theorem is satisfiable *)
+Example select_guard_nonvacuous :
+  select_guard w_m [mk w_a MNe [50]; mk w_b MRe [120; 46; 42]]
+    [ {| s_name := w_m; s_labels := [(w_a, [49]); (w_b, [120; 121])]; s_chunks := [] |};
+      {| s_name := w_n; s_labels := [(w_a, [49])]; s_chunks := [] |} ] = true.
+Proof. reflexivity. Qed.
+
+Example extract_guard_nonvacuous : extract_guard w_m [([97;98],[120]); (w_b,[112])] [97;98] = true /\
+                                   extract_guard w_m [([97;98],[120]); (w_b,[112])] w_b = false.
+Proof. split; reflexivity. Qed.
+
+(* ---------- vector arithmetic ---------- *)
+Section Arith.
+Variable rmatch : str -> str -> bool.
+
+(* every output series of  q1 op q2  comes from a left series whose label text (the id minus the metric
+   name) also names a right series; its timestamps are the left series' timestamps *)
+Theorem vector_arith_matches_labels op q1 q2 db e :
+  In e (run_arith rmatch op q1 q2 db) ->
+  exists e1 e2, In e1 (run_query rmatch q1 db) /\ In e2 (run_query rmatch q2 db) /\
+    fst e = fst e1 /\
+    fst e2 = q_name q2 ++ skipn (length (q_name q1)) (fst e1) /\
+    map fst (snd e) = map fst (snd e1).
+Proof.
+  unfold run_arith. rewrite in_flat_map. intros [e1 [H1 H]].
+  destruct (find _ (run_query rmatch q2 db)) as [e2|] eqn:F; [|destruct H].
+  destruct H as [<-|[]]. apply find_some in F. destruct F as [F1 F2]. apply str_eqb_eq in F2.
+  exists e1, e2. cbn [fst snd]. repeat split; try assumption. rewrite map_map. reflexivity.
+Qed.
+
+(* where both operands have a sample the value is  left op right *)
+Theorem vector_arith_value op q1 q2 db e t v :
+  In e (run_arith rmatch op q1 q2 db) -> In (t, v) (snd e) ->
+  exists e1 e2 x, In e1 (run_query rmatch q1 db) /\ In e2 (run_query rmatch q2 db) /\ fst e = fst e1 /\
+    In (t, x) (snd e1) /\
+    v = bin_apply op x (match find (fun tv2 => Z.eqb (fst tv2) t) (snd e2) with Some tv2 => snd tv2 | None => 0%Q end).
+Proof.
+  unfold run_arith. rewrite in_flat_map. intros [e1 [H1 H]] Hv.
+  destruct (find _ (run_query rmatch q2 db)) as [e2|] eqn:F; [|destruct H].
+  destruct H as [<-|[]]. apply find_some in F. destruct F as [F1 F2]. cbn [snd] in Hv.
+  apply in_map_iff in Hv. destruct Hv as [[t' x] [E Hx]]. cbn [fst snd] in E. injection E as <- <-.
+  exists e1, e2, x. repeat split; assumption.
+Qed.
+End Arith.
+
+(* witnesses: (1) m{a="1",b="p"} and n{a="1",b="p"} are not paired by  m{b!="zz"} + n  because the left id
+   lists b first; (2) a right-hand sample missing at t=20 is taken as 0 (PromQL: no output sample) *)
+Definition w_db2 : list series :=
+  [ {| s_name := w_m; s_labels := [(w_a, [49]); (w_b, [112])]; s_chunks := [[(10, 60); (20, 120)]%Z] |};
+    {| s_name := w_n; s_labels := [(w_a, [49]); (w_b, [112])]; s_chunks := [[(10, 240)]%Z] |} ].
+
+Theorem arith_label_order_refuted :
+  let rm := fun _ _ : str => false in
+  map fst (run_query rm (QSel w_m [mk w_b MNe [122; 122]]) w_db2) = [[109; 123; 98; 58; 112; 44; 97; 58; 49; 44]] /\
+  map fst (run_query rm (QSel w_n []) w_db2) = [[110; 123; 97; 58; 49; 44; 98; 58; 112; 44]] /\
+  run_arith rm BAdd (QSel w_m [mk w_b MNe [122; 122]]) (QSel w_n []) w_db2 = [].
+Proof. vm_compute. repeat split; reflexivity. Qed.
+
+Theorem arith_missing_sample_refuted :
+  let rm := fun _ _ : str => false in
+  map (fun e => map fst (snd e)) (run_query rm (QSel w_n []) w_db2) = [[10%Z]] /\
+  map (fun e => map fst (snd e)) (run_arith rm BMul (QSel w_m []) (QSel w_n []) w_db2) = [[10%Z; 20%Z]].
+Proof. vm_compute. split; reflexivity. Qed.
+
+(* ---------- the relations for whole queries (same selector, same grouping clause) ---------- *)
+Section Queries.
+Variable rmatch : str -> str -> bool.
+
+Theorem min_le_avg_le_max_query g n ms db gid t mn av mx :
+  result_at rmatch (QAgg AMin g n ms) db gid t = Some mn ->
+  result_at rmatch (QAgg AAvg g n ms) db gid t = Some av ->
+  result_at rmatch (QAgg AMax g n ms) db gid t = Some mx ->
+  (mn <= av)%Q /\ (av <= mx)%Q.
+Proof.
+  unfold result_at. cbn [first_agg q_name].
+  rewrite (tracked_fn rmatch AMin AAvg), (tracked_fn rmatch AMax AAvg) by discriminate.
+  apply min_le_avg_le_max.
+Qed.
+
+Theorem avg_eq_sum_div_count_query g n ms db gid t a :
+  group_list g <> [] ->
+  is_without g = true \/ fst (flags (QAgg ASum g n ms)) = false ->
+  forallb (fun pts => Nat.leb (length (vals_at t pts)) 1)
+          (members (group_list g) (is_without g) db (tracked rmatch (QAgg AAvg g n ms) db) gid) = true ->
+  result_at rmatch (QAgg AAvg g n ms) db gid t = Some a ->
+  exists s c, result_at rmatch (QAgg ASum g n ms) db gid t = Some s /\
+              result_at rmatch (QAgg ACount g n ms) db gid t = Some c /\
+              (~ c == 0)%Q /\ (a == s / c)%Q.
+Proof.
+  intros Hg Hc Hd. unfold result_at. cbn [first_agg q_name].
+  rewrite (tracked_fn rmatch ASum AAvg) by discriminate.
+  rewrite (tracked_count rmatch g n ms db AAvg Hg Hc).
+  intros Ha. destruct (avg_eq_sum_div_count _ _ _ _ _ _ _ _ Hd Ha) as [s [c [H1 [H2 [H3 [H4 H5]]]]]].
+  exists s, c. repeat split; try assumption. apply H3. exact Hg.
+Qed.
+End Queries.
